@@ -16,6 +16,7 @@ type Chooser struct {
 	Labels []string // label of each point
 	Costs  []int    // deviation cost of alternatives >0 at each point (default 1)
 	Bad    string   // replay divergence, if any
+	Silent bool     // the scenario should not report this execution (duplicate root run of a shard)
 }
 
 func NewChooser(prefix []int) *Chooser { return &Chooser{prefix: prefix} }
@@ -85,7 +86,44 @@ func Explore(r *Run, bound int, what string, scenario func(c *Chooser)) int64 {
 
 // ExploreN is Explore on a given number of goroutines (1 = sequential DFS in this goroutine's stead).
 func ExploreN(r *Run, workers, bound int, what string, scenario func(c *Chooser)) int64 {
-	type job struct{ prefix []int }
+	return exploreImpl(r, workers, bound, what, 0, 1, scenario)
+}
+
+// ExploreShard explores, sequentially, the part of the tree that belongs to shard i of n (see exploreImpl). The
+// union over all shards is exactly the tree ExploreN visits; used when a process-global seam forbids goroutine
+// workers. Executions with Chooser.Silent set are duplicates that another shard reports.
+func ExploreShard(r *Run, bound int, what string, i, n int, scenario func(c *Chooser)) int64 {
+	return exploreImpl(r, 1, bound, what, i, n, scenario)
+}
+
+func exploreImpl(r *Run, workers, bound int, what string, shardI, shardN int, scenario func(c *Chooser)) int64 {
+	// Sharding: nodes with fewer than two non-default picks are executed by every shard but reported only by
+	// the shard that owns them (hash of the prefix); a node with two non-default picks — and its whole subtree —
+	// belongs to exactly one shard. This balances the load far better than cutting at the root.
+	const shardDepth = 2
+	type job struct {
+		prefix []int
+		owned  bool
+	}
+	owner := func(p []int) int {
+		h := uint64(1469598103934665603)
+		for i, x := range p {
+			if x != 0 {
+				h ^= uint64(i)*1099511628211 + uint64(x)
+				h *= 1099511628211
+			}
+		}
+		return int(h % uint64(shardN))
+	}
+	nz := func(p []int) int {
+		n := 0
+		for _, x := range p {
+			if x != 0 {
+				n++
+			}
+		}
+		return n
+	}
 	var (
 		mu      sync.Mutex
 		stack   []job
@@ -94,7 +132,7 @@ func ExploreN(r *Run, workers, bound int, what string, scenario func(c *Chooser)
 		cut     int32
 		cond    = sync.NewCond(&mu)
 	)
-	stack = append(stack, job{nil})
+	stack = append(stack, job{nil, shardN <= 1})
 	pending = 1
 	var wg sync.WaitGroup
 	for w := 0; w < workers; w++ {
@@ -121,8 +159,13 @@ func ExploreN(r *Run, workers, bound int, what string, scenario func(c *Chooser)
 						atomic.StoreInt32(&cut, 1)
 					} else {
 						c := NewChooser(j.prefix)
+						if !j.owned && owner(j.prefix) != shardI {
+							c.Silent = true // executed only to find the children; reported by the owning shard
+						}
 						scenario(c)
-						atomic.AddInt64(&execs, 1)
+						if !c.Silent {
+							atomic.AddInt64(&execs, 1)
+						}
 						if c.Bad != "" {
 							r.HarnessError("replay divergence in %s: %s (prefix %v)", what, c.Bad, j.prefix)
 						} else {
@@ -132,6 +175,7 @@ func ExploreN(r *Run, workers, bound int, what string, scenario func(c *Chooser)
 									dev += c.Costs[i]
 								}
 							}
+							depth := nz(j.prefix)
 							for i := len(j.prefix); i < len(c.Picks); i++ {
 								if dev+c.Costs[i] > bound {
 									continue
@@ -140,7 +184,14 @@ func ExploreN(r *Run, workers, bound int, what string, scenario func(c *Chooser)
 									p := make([]int, i+1)
 									copy(p, c.Picks[:i])
 									p[i] = alt
-									kids = append(kids, job{p})
+									kid := job{p, j.owned}
+									if !j.owned && depth+1 >= shardDepth {
+										if owner(p) != shardI {
+											continue
+										}
+										kid.owned = true
+									}
+									kids = append(kids, kid)
 								}
 							}
 						}
